@@ -594,9 +594,10 @@ type keysetPrims struct {
 }
 
 type ksEntry struct {
-	b        *builtKey
-	primary  bool
-	disabled bool
+	b         *builtKey
+	primary   bool
+	disabled  bool
+	destroyed bool // status DESTROYED (the key data is still there): as unusable as a disabled key
 }
 
 // buildKeyset builds private/public handles (proto path, exact ids) and the primitives.
@@ -608,6 +609,8 @@ func buildKeyset(es []ksEntry, viaManager bool) (*keysetPrims, error) {
 		st := tinkpb.KeyStatusType_ENABLED
 		if e.disabled {
 			st = tinkpb.KeyStatusType_DISABLED
+		} else if e.destroyed {
+			st = tinkpb.KeyStatusType_DESTROYED
 		} else {
 			out.refKeys = append(out.refKeys, e.b.ref)
 		}
@@ -803,9 +806,9 @@ func jwkEquivalent(a, b ref.JWTKey) bool {
 func roundTripSection(x *h.X) {
 	alg := h.Pick(x, "alg", algsFor(x, []string{"HS256", "HS512", "ES256", "ES384", "RS256", "RS512", "PS256", "PS384", "ML-DSA-65"}))
 	mode := h.Pick(x, "kid", kidModes)
-	shapes := []string{"single(manager)", "B,A*", "A*,B(disabled)"}
+	shapes := []string{"single(manager)", "B,A*", "A*,B(disabled)", "B(destroyed),A*"}
 	if x.Thorough() {
-		shapes = []string{"single(manager)", "single(proto)", "A*,B", "B,A*", "A*,B(disabled)", "A*,C(other algorithm)"}
+		shapes = []string{"single(manager)", "single(proto)", "A*,B", "B,A*", "A*,B(disabled)", "B(destroyed),A*", "A*,C(other algorithm)"}
 	}
 	shape := h.Pick(x, "keyset", shapes)
 	isMAC := strings.HasPrefix(alg, "HS")
@@ -853,6 +856,8 @@ func roundTripSection(x *h.X) {
 		es = []ksEntry{{b: B}, {b: A, primary: true}}
 	case "A*,B(disabled)":
 		es = []ksEntry{{b: A, primary: true}, {b: B, disabled: true}}
+	case "B(destroyed),A*":
+		es = []ksEntry{{b: B, destroyed: true}, {b: A, primary: true}}
 	default:
 		calg := map[bool]string{true: "HS" + alg[len(alg)-3:], false: "ES256"}[isMAC]
 		if calg == alg {
@@ -1034,6 +1039,7 @@ func main() {
 			{Name: "roundtrip-jwk", Body: roundTripSection, Bound: -1},
 			{Name: "manipulation", Body: manipulationSection, Bound: -1},
 			{Name: "fractional-time", Body: fractionalSection, Bound: -1},
+			{Name: "validator-real-clock", Body: realClockSection, Bound: -1, Serial: true},
 			// last: binds a per-thread entropy tape (the dispatcher stays installed under crypto/rand afterwards)
 			{Name: "tink-generated-keys", Body: generatedKeysSection, Bound: -1},
 		})
